@@ -15,7 +15,8 @@
        /\ forall t in parse g start w: wf_tree g t /\ closed t /\ lbl t = start /\ yield t = w.
    PROVED IN FULL (for every canonical grammar, cyclic or not, every string, every fuel):
      * line 3 (C10_parse_sound; no forest hypothesis any more, no restriction on the constructor's
-       start symbol) and the "only if" half of line 1 (C10_accept_sound, C10_parse_sound);
+       start symbol other than that it is a key of g) and the "only if" half of line 1
+       (C10_accept_sound, C10_parse_sound);
      * line 2: C10_reject_sound (SyntaxErr -> non-member: chart COMPLETENESS, pinned and repaired
        form alike, no guard), and with the explicit fuel bound `fuel_bound` (C10_chart_enough_fuel)
        the equivalence C10_syntaxerr_iff and the decision statement C10_accepts_iff;
@@ -40,13 +41,15 @@
        C10_forest_total and hence C10_parse_iff / C10_parse_total).
      * C10_harness_fuel_ok: the fuel formula of harness/c10.py (`fuel_for`, before its cap) is
        >= fuel_bound for every grammar and every input not longer than the longest of the grammar,
-       so the fuel theorems apply to every EarleyParser.parse / parse_on case of the run.
+       so the fuel theorems apply to every EarleyParser.parse / parse_on case of the run;
+       C10_harness_fuel_solver_ok: the same for the specialised grammar of the ISLaSolver.parse
+       cases (EarleySolverFuel.v).
    STILL PARTIAL: nothing of the three lines for acyclic grammars.  Outside the guard
    (infinitely ambiguous grammars) C10_parse_member_outcomes_partial remains the strongest statement
    about members: non-empty list of trees or the model's out-of-fuel outcome. *)
 From ISLA Require Import Grammar GrammarFacts Earley EarleyFacts EarleyPrune EarleyTop EarleyTrees
   EarleyComplete EarleyForest EarleyFuel EarleyWrap EarleyCompleteMore EarleyAcyclic EarleyAcyclicSpec
-  EarleyHarnessFuel.
+  EarleyHarnessFuel EarleySolverFuel.
 
 (* (1) chart invariant: every item (A -> alpha . beta, origin s) of column j of the finished chart
    satisfies: A -> alpha beta is a rule, alpha =>* w[s..j) *)
@@ -262,6 +265,15 @@ Theorem C10_harness_fuel_capped_ok : forall g cstart m n cap,
   fuel_bound (cgram g cstart) m <= Nat.min cap (harness_fuel g n).
 Proof. exact harness_fuel_capped_ok. Qed.
 Print Assumptions C10_harness_fuel_capped_ok.
+
+(* (4f) the same for the grammar that ISLaSolver.parse(inp, nt) hands to the parser (the model's
+   `specialise g nt`: <start> ::= nt overrides the rule of <start>, unreachable rules deleted);
+   the harness computes its fuel from the ORIGINAL grammar g *)
+Theorem C10_harness_fuel_solver_ok : forall g nt m n,
+  is_nt nt = true -> defined g nt = true -> m <= n ->
+  fuel_bound (cgram (specialise g nt) START) m <= harness_fuel g n.
+Proof. exact harness_fuel_solver_ok. Qed.
+Print Assumptions C10_harness_fuel_solver_ok.
 
 (* the boolean class of canonical grammars gives the Prop-level hypotheses *)
 Theorem C10_canonical_form : forall g, canonical_form g = true -> good_grammar g /\ defined g WRAP = false.
